@@ -192,6 +192,20 @@ theorem weightedUnion_perm (sqrt : Rat → Rat) {ws ws' : List Num} {xs xs' : Li
   · exact ExceptR.eMp _ _
   · exact ExceptR.eMp _ _
 
+/-- **FuzzyXOr / FuzzySelectedUnion**: a cell of the stacked computation is missing exactly when some input is missing there -/
+theorem stackCell_mask (xs : List Arr) (f : List Rat → Cell) (hf : ∀ l, (f l).mask = false) (i : Nat) :
+    (stackCell xs f i).mask = (column xs i).any (·.mask) := by
+  unfold stackCell
+  by_cases h : (column xs i).any (·.mask) = true
+  · simp [h]
+  · have h' : (column xs i).any (·.mask) = false := by simpa using h
+    simp only [h', Bool.false_eq_true, if_false, hf]
+
+theorem xorCell_unmasked (l : List Rat) : (xorCell l).mask = false := by
+  unfold xorCell; simp only; split <;> rfl
+
+theorem selCell_unmasked (t : Bool) (k : Nat) (l : List Rat) : (selCell t k l).mask = false := rfl
+
 /-- the mean of values in [-1, 1] lies in [-1, 1]: on fuzzy inputs FuzzyUnion's clamp changes nothing -/
 theorem mean_in_range (x : Rat) (l : List Rat) (h : ∀ y ∈ x :: l, -1 ≤ y ∧ y ≤ 1) :
     -1 ≤ (x :: l).sum / ((x :: l).length : Nat) ∧ (x :: l).sum / ((x :: l).length : Nat) ≤ 1 := by
